@@ -141,12 +141,12 @@ def subst(t, s):
 
 APPLICABLE = {
     "Reference": ["lt", "mut"], "Path": ["lt", "id", "alias", "pkg"], "TypeAlias": ["lt", "id", "alias", "pkg"],
-    "FunctionPointer": ["name", "abi", "unsafe"], "RawPointer": ["mut"], "Array": ["len"],
+    "FunctionPointer": ["name", "abi", "unsafe", "fnout", "fnarity"], "RawPointer": ["mut"], "Array": ["len"],
     "ScalarPrimitive": ["scalar"], "Tuple": ["arity"],
 }
 IGNORED = ["lt", "name"]                     # what matching / equivalence (should) ignore
 IGNORED_BY_TEMPLATE = ["lt", "name", "id"]   # template matching also ignores rustdoc ids
-SIGNIFICANT = ["mut", "alias", "pkg", "len", "scalar", "abi", "unsafe", "arity", "id"]
+SIGNIFICANT = ["mut", "alias", "pkg", "len", "scalar", "abi", "unsafe", "arity", "id", "fnout", "fnarity"]
 
 
 def perturb(rng, t, p, kinds):
@@ -178,6 +178,14 @@ def perturb(rng, t, p, kinds):
             v2["abi"] = copy.deepcopy(rng.choice(ABIS))
         elif k == "unsafe":
             v2["is_unsafe"] = not v2["is_unsafe"]
+        elif k == "fnout":
+            # a return type appears or disappears (seeded change C17-4: zip over inputs ++ output dropped the unpaired one)
+            v2["output"] = sc("U8") if v2["output"] is None else None
+        elif k == "fnarity":
+            if v2["inputs"] and rng.random() < 0.5:
+                v2["inputs"].pop()
+            else:
+                v2["inputs"].append({"name": None, "type_": sc("U8")})
         elif k == "len":
             v2["len"] = v2["len"] + 1
         elif k == "scalar":
